@@ -19,7 +19,7 @@ import (
 
 func init() {
 	seqChecks["c14h"] = &seqCheck{run: runC14h, replay: replayC14h,
-		rule: "every mutation history of <=3 (4 thorough) operations over the C13 value set, served through store.QueryHandler on a real Service: an ordinary collection resource, a query resource and a query resource with a path parameter + AffectedResources; a reference client holding the result of queries {'', k, l} follows system.reset (re-fetch) and query events (query request, apply events or replace by the new result) and must then equal a fresh get whenever the reference result changed; distinct = distinct (history, kind, message list)"}
+		rule: "every mutation history of <=3 (4 thorough) operations over the C13 value set, served through store.QueryHandler on a real Service: an ordinary collection resource, a query resource and a query resource with a path parameter + AffectedResources (also with one affected resource that the RequestHandler refuses, named first or last); a reference client holding the result of queries {'', k, l} follows system.reset (re-fetch) and query events (query request, apply events or replace by the new result) and must then equal a fresh get whenever the reference result changed; distinct = distinct (history, kind, message list)"}
 }
 
 // the reference client of one (resource, query)
@@ -84,10 +84,16 @@ func c14hRun(db *badger.DB, kind string, ops []c13Op, emit func(string)) string 
 					return url.Values{"prefix": {p}}, "prefix=" + p, nil
 				}})
 			clients = []*c14Client{{rid: "t.search", query: "prefix="}, {rid: "t.search", query: "prefix=k"}, {rid: "t.search", query: "prefix=l"}}
-		case "param":
-			// the prefix is a path parameter: t.by.<prefix>; AffectedResources names the resources of old and new key
+		case "param", "paramfailA", "paramfailB":
+			// the prefix is a path parameter: t.by.<prefix>; AffectedResources names the resources of old and new key.
+			// paramfailA / paramfailB: the resource t.by.k is refused by the RequestHandler (an affected resource
+			// whose events cannot be generated), named before (A) or after (B) the resources that can be served:
+			// the clients of the other affected resources must be told all the same.
 			s.Handle("by.$p", res.Collection, store.QueryHandler{QueryStore: qs, Transformer: tr,
 				RequestHandler: func(rname string, pp map[string]string) (url.Values, error) {
+					if kind != "param" && pp["p"] == "k" {
+						return nil, res.ErrNotFound
+					}
 					return url.Values{"prefix": {pp["p"]}}, nil
 				},
 				AffectedResources: func(p res.Pattern, qc store.QueryChange) []string {
@@ -106,9 +112,17 @@ func c14hRun(db *badger.DB, kind string, ops []c13Op, emit func(string)) string 
 							}
 						}
 					}
+					if kind == "paramfailB" {
+						for i, j := 0, len(out)-1; i < j; i, j = i+1, j-1 {
+							out[i], out[j] = out[j], out[i]
+						}
+					}
 					return out
 				}})
 			clients = []*c14Client{{rid: "t.by.k"}, {rid: "t.by.l"}, {rid: "t.by.ka"}}
+			if kind != "param" {
+				clients = clients[1:]
+			}
 		}
 		var subjects []string
 		conn.OnPub = func(m envnats.Msg) {
@@ -234,7 +248,7 @@ func runC14h(c *seqCtx) {
 			return
 		}
 		if len(ops) > 0 && c.Mine() {
-			for _, kind := range []string{"ordinary", "query", "param"} {
+			for _, kind := range []string{"ordinary", "query", "param", "paramfailA", "paramfailB"} {
 				in := kind + "|" + opsString(ops)
 				sig := c14hRun(db, kind, ops, func(desc string) { c.Fail("C14", desc+" ["+in+"]", in) })
 				c.Eval(in + "=>" + sig)
